@@ -550,3 +550,61 @@ func ccittDense(cols, kind int) []byte {
 	p.put(0x001, 12)
 	return p.flush()
 }
+
+// jbig2RepeatedRefs: a symbol dictionary of nsym small symbols (segment 1), optionally
+// re-exported through a chain of further dictionaries that each refer to the previous one,
+// and an immediate text region with no instances whose referred-to list names the last
+// dictionary nref times (long form of the segment header: up to 2^29 entries are expressible,
+// the decoder admits 65536).
+func jbig2RepeatedRefs(nref, nsym, chain int, inDict bool) []byte {
+	var syms []*bitmap.Bitmap
+	for i := 0; i < nsym; i++ {
+		// noisy 8x8 symbols: the decoder refuses a dictionary that claims more symbols
+		// than it has bytes of data
+		bm := bitmap.New(8, 8)
+		x := uint32(i)*2654435761 + 12345
+		for k := 0; k < 64; k++ {
+			x = x*1664525 + 1013904223
+			if x>>31 != 0 {
+				bm.SetPixel(k%8, k/8, true)
+			}
+		}
+		syms = append(syms, bm)
+	}
+	var s []byte
+	page := jbig2.WritePageInfo(nil, 16, 16)
+	s = jbig2.WriteSegmentHeader(s, 0, 48, 1, nil, uint32(len(page)))
+	s = append(s, page...)
+	sd := jbig2.EncodeSymbolDictSegment(syms, 1)
+	s = jbig2.WriteSegmentHeader(s, 1, 0, 1, nil, uint32(len(sd)))
+	s = append(s, sd...)
+	last := uint32(1)
+	for i := 0; i < chain; i++ {
+		// a dictionary with one new symbol that refers to the previous dictionary
+		// (its exports then include the imported symbols)
+		sd2 := jbig2.EncodeSymbolDictSegment(syms[:1], 1)
+		drefs := []uint32{last}
+		if inDict { // the dictionary itself names its predecessor nref times
+			drefs = make([]uint32, nref)
+			for j := range drefs {
+				drefs[j] = last
+			}
+		}
+		s = jbig2.WriteSegmentHeader(s, last+1, 0, 1, drefs, uint32(len(sd2)))
+		s = append(s, sd2...)
+		last++
+	}
+	if inDict {
+		nref = 1
+	}
+	refs := make([]uint32, nref)
+	for i := range refs {
+		refs[i] = last
+	}
+	tr := jbig2.WriteRegionSegmentInfo(nil, 8, 8, 0, 0, bitmap.CombOpOR)
+	tr = append(tr, 0, 0)       // flags: arithmetic, no refinement, one strip
+	tr = append(tr, 0, 0, 0, 0) // no instances
+	s = jbig2.WriteSegmentHeader(s, last+1, 6, 1, refs, uint32(len(tr)))
+	s = append(s, tr...)
+	return jbig2.WriteSegmentHeader(s, last+2, 49, 1, nil, 0)
+}
